@@ -57,8 +57,10 @@ class MinuitFitter(Fitter):
             self.theory.covariance = {(p1, p2): self.minuit.covariance[p1, p2]
                                       for p1 in self.theory.free_parameters()
                                       for p2 in self.theory.free_parameters()}
-        except AttributeError:
+        except (AttributeError, TypeError):
+            # minimiser has no covariance matrix (e.g. invalid minimum, HESSE failed)
             print("Something's problematic. No covariances available.")
+            self.theory.covariance = {}
 
     def fit(self):
         """Perform simple fit.
